@@ -37,6 +37,8 @@ VARIABLES hunt,      \* Targets -> IP4 \cup {NoIP}            Handler.huntList (
           offer,     \* Targets -> IP4 \cup {V6, NoIP}         MACEntry.IP4Offer
           pend,      \* Targets -> sequence of addresses: StartHunt calls between their membership test and their insert
                      \*   (always empty unless RacyStart)
+          captured,  \* environment: MACs the application flagged with Session.Capture (a per-MAC flag independent of
+                     \*   StartHunt / StopHunt; the handler must not look at it)
           hostOf,    \* LanIPs -> Targets \cup {NilMAC}         Session.HostTable restricted to client addresses: the
                      \*   MAC entry (and its offer) is deleted with its last host (hosttable.go:124-163)
           out,       \* sequence of ARP frames emitted by the last step
@@ -48,9 +50,9 @@ VARIABLES hunt,      \* Targets -> IP4 \cup {NoIP}            Handler.huntList (
           poisoned,  \* property level: Targets -> BOOLEAN, last loop frame received was a forged one
           pre        \* property level: facts about the state before the last step
 
-mech == <<hunt, loops, closed, offer, hostOf, pend, out, ev>>
+mech == <<hunt, loops, closed, offer, hostOf, pend, captured, out, ev>>
 prop == <<refHunt, refClosed, refOffer, rl, poisoned, pre>>
-vars == <<hunt, loops, closed, offer, hostOf, pend, out, ev, refHunt, refClosed, refOffer, rl, poisoned, pre>>
+vars == <<hunt, loops, closed, offer, hostOf, pend, captured, out, ev, refHunt, refClosed, refOffer, rl, poisoned, pre>>
 
 Frame(op, ed, sm, si, tm, ti) == [op |-> op, ed |-> ed, sm |-> sm, si |-> si, tm |-> tm, ti |-> ti]
 
@@ -72,7 +74,7 @@ Found(l) == IF ByMac THEN (IF Hunted(loops[l].mac) THEN {loops[l].mac} ELSE {})
             ELSE FoundByIP(loops[l].ip)
 
 StartHuntM(m, ip) ==
-  /\ UNCHANGED <<closed, offer, hostOf, pend>> /\ out' = <<>>
+  /\ UNCHANGED <<closed, offer, hostOf, pend, captured>> /\ out' = <<>>
   /\ IF m = NilMAC \/ ip \notin IP4
      THEN /\ UNCHANGED <<hunt, loops>>
           /\ ev' = [kind |-> "start", mac |-> m, ip |-> ip, err |-> TRUE, spawned |-> 0]
@@ -86,7 +88,7 @@ StartHuntM(m, ip) ==
 \* n overlapping StartHunt(m, ip) calls observed together (all have returned): the mutex serialises them, so the
 \* first effective one inserts and spawns, the others find the entry
 ConcStartM(m, ip, n) ==
-  /\ UNCHANGED <<closed, offer, hostOf, pend>> /\ out' = <<>>
+  /\ UNCHANGED <<closed, offer, hostOf, pend, captured>> /\ out' = <<>>
   /\ IF m = NilMAC \/ ip \notin IP4
      THEN /\ UNCHANGED <<hunt, loops>>
           /\ ev' = [kind |-> "cstart", mac |-> m, ip |-> ip, n |-> n, errs |-> n, spawned |-> 0]
@@ -100,44 +102,50 @@ ConcStartM(m, ip, n) ==
 \* deviation variant RacyStart: the membership test and the insert are two critical sections
 StartCheckM(m, ip) ==
   /\ RacyStart /\ m # NilMAC /\ ip \in IP4 /\ ~Hunted(m) /\ Len(pend[m]) < 2
-  /\ UNCHANGED <<hunt, loops, closed, offer, hostOf>> /\ out' = <<>>
+  /\ UNCHANGED <<hunt, loops, closed, offer, hostOf, captured>> /\ out' = <<>>
   /\ pend' = [pend EXCEPT ![m] = Append(@, ip)]
   /\ ev' = [kind |-> "scheck", mac |-> m, ip |-> ip]
 StartInsertM(m) ==
   /\ RacyStart /\ pend[m] # <<>>
-  /\ UNCHANGED <<closed, offer, hostOf>> /\ out' = <<>>
+  /\ UNCHANGED <<closed, offer, hostOf, captured>> /\ out' = <<>>
   /\ pend' = [pend EXCEPT ![m] = Tail(@)]
   /\ hunt' = [hunt EXCEPT ![m] = Head(pend[m])]
   /\ loops' = Append(loops, [mac |-> m, ip |-> Head(pend[m]), pc |-> "check", tgt |-> m, cl |-> FALSE])
   /\ ev' = [kind |-> "sinsert", mac |-> m, ip |-> Head(pend[m]), spawned |-> 1]
 
 StopHuntM(m) ==
-  /\ UNCHANGED <<loops, closed, offer, hostOf, pend>> /\ out' = <<>>
+  /\ UNCHANGED <<loops, closed, offer, hostOf, pend, captured>> /\ out' = <<>>
   /\ hunt' = IF m \in Targets THEN [hunt EXCEPT ![m] = NoIP] ELSE hunt
   /\ ev' = [kind |-> "stop", mac |-> m]
 
 CloseM ==
-  /\ UNCHANGED <<hunt, loops, offer, hostOf, pend>> /\ out' = <<>>
+  /\ UNCHANGED <<hunt, loops, offer, hostOf, pend, captured>> /\ out' = <<>>
   /\ closed' = TRUE
   /\ ev' = [kind |-> "close", stuck |-> {}]
 
 \* Close followed by the wake-up of every waiting loop (closeChan is closed: spoof.go:119); `stuck`
 \* is the set of waiting loops observed NOT to wake up (always empty in the mechanism)
 CloseAndWakeM ==
-  /\ UNCHANGED <<hunt, offer, hostOf, pend>> /\ out' = <<>>
+  /\ UNCHANGED <<hunt, offer, hostOf, pend, captured>> /\ out' = <<>>
   /\ closed' = TRUE
   /\ loops' = [i \in 1..Len(loops) |-> IF loops[i].pc = "wait" THEN [loops[i] EXCEPT !.pc = "check"] ELSE loops[i]]
   /\ ev' = [kind |-> "close", stuck |-> {}]
 
 OfferM(m, ip) ==
-  /\ UNCHANGED <<hunt, loops, closed, hostOf, pend>> /\ out' = <<>>
+  /\ UNCHANGED <<hunt, loops, closed, hostOf, pend, captured>> /\ out' = <<>>
   /\ offer' = [offer EXCEPT ![m] = ip]
   /\ ev' = [kind |-> "offer", mac |-> m, ip |-> ip]
+
+\* Session.Capture / Session.Release (session.go:534-565): environment calls; no effect on the handler
+CaptureM(m, on) ==
+  /\ UNCHANGED <<hunt, loops, closed, offer, hostOf, pend>> /\ out' = <<>>
+  /\ captured' = IF on THEN captured \cup {m} ELSE captured \ {m}
+  /\ ev' = [kind |-> "capture", mac |-> m, on |-> on]
 
 \* spoof.go:82-84: membership check under arpMutex
 LoopCheckFromM(l, t, pcs) ==
   /\ loops[l].pc \in pcs
-  /\ UNCHANGED <<hunt, closed, offer, hostOf, pend>> /\ out' = <<>>
+  /\ UNCHANGED <<hunt, closed, offer, hostOf, pend, captured>> /\ out' = <<>>
   /\ IF Found(l) = {}
      THEN /\ t = NilMAC
           /\ loops' = [loops EXCEPT ![l].pc = "correct", ![l].cl = closed]
@@ -153,7 +161,7 @@ LoopCheckM(l, t) == LoopCheckFromM(l, t, {"check"})
 \* auto: the harness observes a loop that finds closeChan already closed back at its check together with its frame
 LoopActM(l, auto) ==
   /\ loops[l].pc \in {"send", "correct"}
-  /\ UNCHANGED <<hunt, closed, offer, hostOf, pend>>
+  /\ UNCHANGED <<hunt, closed, offer, hostOf, pend, captured>>
   /\ IF loops[l].cl
      THEN /\ loops' = [loops EXCEPT ![l].pc = "done"] /\ out' = <<>>
           /\ ev' = [kind |-> "act", l |-> l, done |-> TRUE]
@@ -166,7 +174,7 @@ LoopActM(l, auto) ==
 \* the 6 s ticker fires / closeChan is closed
 TickM(l) ==
   /\ loops[l].pc = "wait"
-  /\ UNCHANGED <<hunt, closed, offer, hostOf, pend>> /\ out' = <<>>
+  /\ UNCHANGED <<hunt, closed, offer, hostOf, pend, captured>> /\ out' = <<>>
   /\ loops' = [loops EXCEPT ![l].pc = "check"]
   /\ ev' = [kind |-> "tick", l |-> l]
 WakeOnCloseM(l) == closed /\ TickM(l)
@@ -198,7 +206,7 @@ RecvOut(op, sm, si, ti, off) ==
 \* es: the Ethernet source of the frame. The handler keys everything on the ARP sender hardware address sm
 \* (arp.go:325,331); a relay that forwards another station's request has es # sm.
 RecvM(op, es, sm, si, ti) ==
-  /\ UNCHANGED <<hunt, loops, closed, pend>>
+  /\ UNCHANGED <<hunt, loops, closed, pend, captured>>
   /\ hostOf' = ParseHosts(sm, si) /\ offer' = ParseOffer(sm, si)
   /\ out' = RecvOut(op, sm, si, ti, offer')
   /\ ev' = [kind |-> "recv", op |-> op, es |-> es, sm |-> sm, si |-> si, ti |-> ti]
@@ -270,13 +278,14 @@ Close            == CloseM /\ CloseR
 Offer(m, ip)     == OfferM(m, ip) /\ OfferR(m, ip)
 LoopCheck(l, t)  == LoopCheckM(l, t) /\ LoopCheckR(l)
 LoopAct(l)       == LoopActM(l, FALSE) /\ LoopActR(l)
+Capture(m, on)   == CaptureM(m, on) /\ IdleR
 Tick(l)          == TickM(l) /\ IdleR
 WakeOnClose(l)   == WakeOnCloseM(l) /\ IdleR
 Recv(op, es, sm, si, ti) == RecvM(op, es, sm, si, ti) /\ RecvR
 
 Init ==
   /\ hunt = [m \in Targets |-> NoIP] /\ loops = <<>> /\ closed = FALSE
-  /\ offer = [m \in Targets |-> NoIP] /\ hostOf = [ip \in LanIPs |-> NilMAC] /\ pend = [m \in Targets |-> <<>>] /\ out = <<>> /\ ev = [kind |-> "init"]
+  /\ offer = [m \in Targets |-> NoIP] /\ hostOf = [ip \in LanIPs |-> NilMAC] /\ pend = [m \in Targets |-> <<>>] /\ captured = {} /\ out = <<>> /\ ev = [kind |-> "init"]
   /\ refHunt = {} /\ refClosed = FALSE /\ refOffer = [m \in Targets |-> NoIP]
   /\ rl = <<>> /\ poisoned = [m \in Targets |-> FALSE] /\ pre = NoPre
 
